@@ -440,6 +440,18 @@ def compare_ub(corr, reqs, impl_ans, model_ans, limit=50, domain=None):
                                        "impl": " ".join(ta[max(0, i - 2):i + 3])[:400], "model": " ".join(tb[max(0, i - 2):i + 3])[:400]})
 
 
+def without_rx_rc(ans):
+    out = []
+    for t in ans.split():
+        if t == "o":
+            continue
+        if t.startswith("p:") and out and out[-1].startswith("p:"):
+            out[-1] += t[2:]
+        else:
+            out.append(t)
+    return " ".join(out)
+
+
 # ------------------------------------------------------------------------------------------------------------------
 # osmocon histories
 
@@ -704,6 +716,9 @@ def correspond(run, corr, first_part=()):
                 continue
             if m == "CRASH" or stale:
                 corr.outside += 1
+                continue
+            if without_rx_rc(x) == without_rx_rc(m):
+                corr.outside += 1          # only the return value of sercomm_drv_rx_char() differs (see props/C06.py)
                 continue
             if len(corr.disagreements) < 50:
                 k = next((j for j in range(min(len(x), len(m))) if x[j] != m[j]), min(len(x), len(m)))
